@@ -646,3 +646,12 @@ def check(ctx):
     for o in ctx.obligations[no:]:
         o['rule'] = 'C18.REDUNDANT(' + o['rule'] + ')'
     check_upgrade(ctx)
+    # the upgrade tool moves an override to the new name because the
+    # enforcer lets an old-name override govern the new policy (C11.TABLE)
+    from . import c11
+    nf, no = len(ctx.findings), len(ctx.obligations)
+    c11.check_table(ctx)
+    for fd in ctx.findings[nf:]:
+        fd.rule = 'C18.UPGRADE(' + fd.rule + ')'
+    for o in ctx.obligations[no:]:
+        o['rule'] = 'C18.UPGRADE(' + o['rule'] + ')'
